@@ -127,7 +127,7 @@ def check_template(case, acc=None):
             if acc is not None:
                 acc.hist['unspecified-by-statement(skipped)'] += 1
             continue
-        out_i, w_i, ns_i = harness.run_impl(src, sx, NS)
+        out_i, w_i, ns_i = harness.run_impl_twice(src, sx, NS)
         no_m, no_i = harness.norm_outcome(out_m), harness.norm_outcome(out_i)
         if no_m != no_i:
             fails.append((bucket_outcome(no_m, no_i, sx),
